@@ -3,6 +3,8 @@
 package main
 
 import (
+	"sync"
+	"bytes"
 	"bufio"
 	"fmt"
 	"os"
@@ -337,6 +339,24 @@ func init() {
 					fmt.Fprintf(w, "cdrfile dec %s\n", hexOf(b))
 				}
 			}
+			// files written by several goroutines at once (as concurrent charging requests do): every one of them must
+			// come out as when written alone
+			for i := 0; i < 4; i++ {
+				f := genWF(r, r.intn(64), false)
+				// many small records: the record headers are where encoders like to share buffers
+				for len(f.CdrList) < 400 {
+					body := r.bytes(1 + r.intn(6))
+					var h cdrFile.CdrHeader
+					h.CdrLength = uint16(len(body))
+					h.DataRecordFormat = cdrFile.BasicEncodingRules
+					h.ReleaseIdentifier = cdrFile.ReleaseIdentifierType(r.intn(7))
+					h.VersionIdentifier = uint8(r.intn(32))
+					h.TsNumber = cdrFile.TsNumberIdentifier(r.intn(32))
+					f.CdrList = append(f.CdrList, cdrFile.CDR{Hdr: h, CdrByte: body})
+				}
+				f.Hdr.NumberOfCdrsInFile = uint32(len(f.CdrList))
+				fmt.Fprintf(w, "cdrfile conc %s\n", sFile(f))
+			}
 			if cdrTmp != "" {
 				os.RemoveAll(cdrTmp)
 			}
@@ -358,6 +378,44 @@ func init() {
 					return "bad-op"
 				}
 				return "ok " + hexOf(encodeToBytes(f))
+			case "conc":
+				f, ok := pFile(toks[1:])
+				if !ok {
+					return "bad-op"
+				}
+				want := encodeToBytes(f)
+				dir := filepath.Dir(tmpPath())
+				var wg sync.WaitGroup
+				bad := make(chan string, 64)
+				for g := 0; g < 16; g++ {
+					wg.Add(1)
+					go func(g int) {
+						defer wg.Done()
+						fg, _ := pFile(toks[1:])
+						path := filepath.Join(dir, fmt.Sprintf("c%d.cdr", g))
+						for k := 0; k < 12; k++ {
+							fg.Encoding(path)
+							b, err := os.ReadFile(path)
+							if err != nil || !bytes.Equal(b, want) {
+								select {
+								case bad <- hexOf(b):
+								default:
+								}
+								return
+							}
+						}
+					}(g)
+				}
+				wg.Wait()
+				select {
+				case x := <-bad:
+					if len(x) > 200 {
+						x = x[:200]
+					}
+					return "diverged " + x
+				default:
+				}
+				return "ok " + hexOf(want)
 			case "rt":
 				f, ok := pFile(toks[1:])
 				if !ok {
